@@ -15,6 +15,12 @@ Line protocol of C07 (see harness/c07_test.go).
   vfy <now> <rev> <h> <proofPresent> <proofDecodes> <rootOfProof hex> <genuine>      -- VerifyPacketCommitment
   vfa <now> <rev> <h> <proofPresent> <proofDecodes> <rootOfProof hex> <genuine>      -- VerifyPacketAcknowledgement
 
+  use <name hex>                            -- the following ops address this client (default "cpchain")
+  updm <same fields as upd>                 -- MsgUpdateClient: ValidateBasic, then the msg server
+  restart | restartapp                      -- export -> validate -> wipe -> import (module level | whole app): ok <all clients>
+  dry <op>                                  -- the op on a dropped cache context: "dry <verdict>", no effect
+  create is refused (`rej`) when the name is taken or the proposal fails ValidateBasic
+
 Outputs: `ok <dump>` / `rej` for create (rejected = the configuration does not pass `ClientState.Validate`) and upd,
 `ok` / `rej` for vfy; `bad-op` when there is no client.
 -/
@@ -22,9 +28,13 @@ namespace TM.Driver.C07
 open TM TM.TmClient
 
 structure St where
-  c : Option Client
+  w : World
+  cur : Bytes
 
-def fresh : St := { c := none }
+/-- the default client name "cpchain" -/
+def defaultName : Bytes := [0x63, 0x70, 0x63, 0x68, 0x61, 0x69, 0x6e]
+
+def fresh : St := { w := [], cur := defaultName }
 
 def hstr (h : Height) : String := toString h.rev ++ "-" ++ toString h.h
 
@@ -131,37 +141,75 @@ def parseUpd : List String → Option UpdOp
     pure ⟨now, hd, env⟩
   | _ => none
 
-def step (st : St) (line : String) : St × String :=
-  match (fields line).takeWhile (· ≠ "|") with
+def parseClient : List String → Option (ClientState × ConsState × Int)
+  | [cid, num, den, tp, drift, delay, lrev, lh, ctime, root, nvh, now] => do
+    let cid ← unhex cid
+    let num ← num.toNat?
+    let den ← den.toNat?
+    let tp ← parseInt? tp
+    let drift ← parseInt? drift
+    let delay ← delay.toNat?
+    let lrev ← lrev.toNat?
+    let lh ← lh.toNat?
+    let ctime ← parseInt? ctime
+    let root ← unhex root
+    let nvh ← unhex nvh
+    let now ← parseInt? now
+    pure (⟨cid, num, den, tp, drift, ⟨lrev, lh⟩, delay⟩, ⟨ctime, root, nvh⟩, now)
+  | _ => none
+
+def nameLt (a b : Bytes) : Bool := (a.map (·.toNat)) < (b.map (·.toNat))
+
+def insName (x : Bytes × Client) : List (Bytes × Client) → List (Bytes × Client)
+  | [] => [x]
+  | y :: ys => if nameLt x.1 y.1 then x :: y :: ys else y :: insName x ys
+
+def dumpAll (w : World) : String :=
+  let l := w.foldl (fun acc x => insName x acc) []
+  if l.isEmpty then "-" else joinWith " " (l.map (fun (n, c) => hex n ++ "{" ++ dump c ++ "}"))
+
+def stepCore (st : St) (fs : List String) : St × String :=
+  match fs with
   | ["reset"] => (fresh, "ok")
-  | ["create", cid, num, den, tp, drift, delay, lrev, lh, ctime, root, nvh, now] =>
-    match unhex cid, num.toNat?, den.toNat?, parseInt? tp, parseInt? drift, delay.toNat?, lrev.toNat?, lh.toNat?,
-          parseInt? ctime, unhex root, unhex nvh, parseInt? now with
-    | some cid, some num, some den, some tp, some drift, some delay, some lrev, some lh,
-      some ctime, some root, some nvh, some now =>
-      if !validTrustLevel num den then ({ c := none }, "rej") else
-      let c := createClient ⟨cid, num, den, tp, drift, ⟨lrev, lh⟩, delay⟩ ⟨ctime, root, nvh⟩ now
-      ({ c := some c }, "ok " ++ dump c)
-    | _, _, _, _, _, _, _, _, _, _, _, _ => (st, "bad-op")
-  | ["upgrade", cid, num, den, tp, drift, delay, lrev, lh, ctime, root, nvh, now] =>
-    match st.c, unhex cid, num.toNat?, den.toNat?, parseInt? tp, parseInt? drift, delay.toNat?, lrev.toNat?, lh.toNat?,
-          parseInt? ctime, unhex root, unhex nvh, parseInt? now with
-    | some c, some cid, some num, some den, some tp, some drift, some delay, some lrev, some lh,
-      some ctime, some root, some nvh, some now =>
-      if !validTrustLevel num den then (st, "rej") else
-      let c' := upgradeClient c ⟨cid, num, den, tp, drift, ⟨lrev, lh⟩, delay⟩ ⟨ctime, root, nvh⟩ now
-      ({ c := some c' }, "ok " ++ dump c')
-    | _, _, _, _, _, _, _, _, _, _, _, _, _ => (st, "bad-op")
+  | ["use", n] =>
+    match unhex n with
+    | some n => ({ st with cur := n }, "ok")
+    | none => (st, "bad-op")
+  | "create" :: rest =>
+    match parseClient rest with
+    | some (cs, k, now) =>
+      let w' := applyW ⟨fun _ => [], fun _ => [], fun _ _ _ _ => false, fun _ => false, fun _ _ _ _ => false⟩ st.w
+        (.create st.cur cs k now)
+      match st.w.get st.cur, w'.get st.cur with
+      | none, some c => ({ st with w := w' }, "ok " ++ dump c)
+      | _, _ => (st, "rej")
+    | none => (st, "bad-op")
+  | "upgrade" :: rest =>
+    match st.w.get st.cur, parseClient rest with
+    | some c, some (cs, k, now) =>
+      if !validProposal cs k then (st, "rej") else
+      let c' := upgradeClient c cs k now
+      ({ st with w := st.w.set st.cur c' }, "ok " ++ dump c')
+    | _, _ => (st, "bad-op")
   | "upd" :: rest =>
-    match st.c, parseUpd rest with
+    match st.w.get st.cur, parseUpd rest with
     | some c, some u =>
       match updateClient u.env c u.hd u.now with
-      | .ok c' => ({ c := some c' }, "ok " ++ dump c')
+      | .ok c' => ({ st with w := st.w.set st.cur c' }, "ok " ++ dump c')
       | _ => (st, "rej")
     | _, _ => (st, "bad-op")
+  | "updm" :: rest =>
+    match st.w.get st.cur, parseUpd rest with
+    | some c, some u =>
+      match updateClientMsg u.env c u.hd u.now with
+      | .ok c' => ({ st with w := st.w.set st.cur c' }, "ok " ++ dump c')
+      | _ => (st, "rej")
+    | _, _ => (st, "bad-op")
+  | ["restart"] => ({ st with w := restart st.w }, "ok " ++ dumpAll (restart st.w))
+  | ["restartapp"] => ({ st with w := restart st.w }, "ok " ++ dumpAll (restart st.w))
   | [op, now, rev, h, present, decodes, root, genuine] =>
     if op ≠ "vfy" ∧ op ≠ "vfa" then (st, "bad-op") else
-    match st.c, parseInt? now, rev.toNat?, h.toNat?, bool? present, bool? decodes, unhex root, bool? genuine with
+    match st.w.get st.cur, parseInt? now, rev.toNat?, h.toNat?, bool? present, bool? decodes, unhex root, bool? genuine with
     | some c, some now, some rev, some h, some present, some decodes, some root, some genuine =>
       let env : Env := {
         valsHash := fun _ => [], headerHash := fun _ => [], sigValid := fun _ _ _ _ => false,
@@ -175,6 +223,14 @@ def step (st : St) (line : String) : St × String :=
       | _ => (st, "rej")
     | _, _, _, _, _, _, _, _ => (st, "bad-op")
   | _ => (st, "bad-op")
+
+def step (st : St) (line : String) : St × String :=
+  match (fields line).takeWhile (· ≠ "|") with
+  | "dry" :: rest =>
+    -- the operation runs on a cache context that is dropped: same verdict, no effect
+    let (_, out) := stepCore st rest
+    (st, "dry " ++ out)
+  | fs => stepCore st fs
 
 def main : IO Unit := TM.Driver.runStdin step fresh
 
